@@ -37,7 +37,7 @@ ANCHORS = {'NmVerif.Functional.applyFn': 'functional::apply_function_t<functor_t
            'NmVerif.Functional.IView.graph': 'functional::get_compute_graph (compute_graph.hpp:14-275) over utility::ct_map / ct_digraph',
            'NmVerif.Functional.generateAlias': 'index::generate_alias (index/alias.hpp:60-88)'}
 MANIFEST = dict(
-    text='Proof: Lean theorems over ARBITRARY functors (any arity, any operand/attribute types): currying in every split equals one call (curry_any_split, curry_chunks), composition = apply the right-most functor and pass the rest on (comp_apply, comp_two), parenthesisation irrelevant (comp_assoc), combinators are the stated permutations, and a compiler-correctness theorem for extraction (compile_correct/compile_frame: extracted composition applied to extracted operands = host evaluation, by induction on the view tree) on the trees where it holds — with a machine-checked counterexample outside — and compile_arity (the static arity of the extracted composition is the number of extracted operands for every well-formed tree, so functional::apply compiles), compile_one_functor_per_op (one functor per operation, none for arrays / aliases / literals), compile_preserves_params (the composition in execution order is the post-order list of the tree's operations, each functor with the attribute list of its view: run-time parameters of a ufunc's op are never lost or exchanged) and operand_dispatch (the type-trait chain applied to every operand never drops the composition of a view, in particular not of a number-valued view, which is a number and a view at once); the view trees of these theorems contain every operand kind the code distinguishes (host array, alias, number literal, array-valued view, number-valued view); tied to the C++ by differential runs of the real functor machinery (probe functors), of the array/functional functors against direct view calls, and of extraction / operand identity / compute graphs on view trees.',
+    text='Proof: Lean theorems over ARBITRARY functors (any arity, any operand/attribute types): currying in every split equals one call (curry_any_split, curry_chunks), composition = apply the right-most functor and pass the rest on (comp_apply, comp_two), parenthesisation irrelevant (comp_assoc), combinators are the stated permutations, and a compiler-correctness theorem for extraction (compile_correct/compile_frame: extracted composition applied to extracted operands = host evaluation, by induction on the view tree) on the trees where it holds — with a machine-checked counterexample outside — and compile_arity (the static arity of the extracted composition is the number of extracted operands for every well-formed tree, so functional::apply compiles), compile_one_functor_per_op (one functor per operation, none for arrays / aliases / literals), compile_preserves_params (the composition in execution order is the post-order list of the operations of the tree, each functor with the attribute list of its view: run-time parameters of the op of a ufunc are never lost or exchanged) and operand_dispatch (the type-trait chain applied to every operand never drops the composition of a view, in particular not of a number-valued view, which is a number and a view at once); the view trees of these theorems contain every operand kind the code distinguishes (host array, alias, number literal, array-valued view, number-valued view); tied to the C++ by differential runs of the real functor machinery (probe functors), of the array/functional functors against direct view calls, and of extraction / operand identity / compute graphs on view trees.',
     note='Lean kernel + propext/Classical.choice/Quot.sound. Node-id uniqueness of the compute graph is not a theorem (ids are hashes mod 1033 and graph-size counters): checked per explored program. Known findings: extraction is wrong when a view operand is not the first operand (also for view::softmax of the library itself; repair proposed: fixes/C14-extract.nonfirst-view-operand.diff, follow-up on branch w4/c1314-postfix); compute-graph ids of sibling sub-views over un-aliased leaves collide (no small repair: ids are part of the view type). Repaired: dangling reference in get_function_composition (regression programs kept; ASan build in the thorough tier).',
     technique='Lean 4 proofs over an abstract stack machine (compiler correctness by mutual structural induction) + differential correspondence')
 ASSUMPTIONS = ['functors are pure functions of (attributes, operands)',
